@@ -3,6 +3,9 @@
 #include <yaclib/fault/detail/fiber/mutex.hpp>
 
 #include <condition_variable>
+#ifdef YACLIB_VERIF
+#  include <yaclib/fault/verif_hook.hpp>
+#endif
 
 namespace yaclib::detail::fiber {
 
@@ -73,6 +76,16 @@ class ConditionVariable {
   template <typename Timeout>
   WaitStatus WaitImpl(std::unique_lock<yaclib::detail::fiber::Mutex>& lock, const Timeout& timeout) {
     InjectFault();
+#ifdef YACLIB_VERIF
+    if (::yaclib::verif::gHooks != nullptr && ::yaclib::verif::gHooks->spurious_wakeup != nullptr &&
+        ::yaclib::verif::gHooks->spurious_wakeup()) {
+      // a spurious wake-up is legal for every std::condition_variable wait: release, let others run, re-acquire
+      lock.unlock();
+      fault::Scheduler::RescheduleCurrent();
+      lock.lock();
+      return WaitStatus::Ready;
+    }
+#endif
     lock.unlock();
     auto status = _queue.Wait(timeout);
     lock.lock();
